@@ -159,7 +159,12 @@ pub struct UdpSocketImpl {
 
 impl Socket for UdpSocketImpl {
     fn new(address: &SocketAddr, timeout_settings: &Option<TimeoutSettings>) -> GDResult<Self> {
-        let socket = net::UdpSocket::bind("0.0.0.0:0").map_err(|e| SocketBind.context(e))?;
+        // bind in the address family of the remote address
+        let bind_address = match address {
+            SocketAddr::V4(_) => "0.0.0.0:0",
+            SocketAddr::V6(_) => "[::]:0",
+        };
+        let socket = net::UdpSocket::bind(bind_address).map_err(|e| SocketBind.context(e))?;
 
         #[cfg(gamedig_verif)]
         let verif_conn = match crate::verif_hook::open(false, address, timeout_settings) {
